@@ -99,6 +99,16 @@ type matDesc struct {
 	AlphaMode  string     `json:"alpha_mode"` // "" none
 	AlphaCut   *fl        `json:"alpha_cutoff"`
 	SameValues int        `json:"-"`
+	// Extras of the material: 0 nil, -1 an empty (non-nil) map, k > 0 the map {"id": k} (a fresh map per material:
+	// equal extras under different map values); the class under deep equality is max(Extras, 0)
+	Extras int `json:"extras,omitempty"`
+}
+
+func extrasClass(e int) int {
+	if e < 0 {
+		return 0
+	}
+	return e
 }
 type instDesc struct {
 	T [3]fl `json:"t"`
@@ -479,6 +489,11 @@ func build(d sceneDesc) built {
 			am := gltf.MaterialAlphaMode(m.AlphaMode)
 			pm.AlphaMode = &am
 		}
+		if m.Extras > 0 {
+			pm.Extras = map[string]any{"id": m.Extras}
+		} else if m.Extras < 0 {
+			pm.Extras = map[string]any{}
+		}
 		mats[i] = pm
 	}
 	for _, mo := range d.Models {
@@ -654,8 +669,8 @@ func coqMat(d sceneDesc, b built, i int) string {
 	if m.OccTex >= 0 {
 		ot = fmt.Sprintf("(Some (%s,%s))", coqTex(d, m.OccTex), cOptF64(m.OccSt))
 	}
-	return fmt.Sprintf("{| pm_ptr := %d; pm_name := %s; pm_pbr := %s; pm_exts := %s; pm_normal := %s; pm_occ := %s; pm_emissive := %s; pm_alpha := %s; pm_cutoff := %s |}",
-		i, cstr(m.Name), pbr, cList(exts), nt, ot, cColor(m.Emissive), cOpt(m.AlphaMode != "", cstr(m.AlphaMode)), cOptF64(m.AlphaCut))
+	return fmt.Sprintf("{| pm_ptr := %d; pm_name := %s; pm_pbr := %s; pm_exts := %s; pm_normal := %s; pm_occ := %s; pm_emissive := %s; pm_alpha := %s; pm_cutoff := %s; pm_extras := %d |}",
+		i, cstr(m.Name), pbr, cList(exts), nt, ot, cColor(m.Emissive), cOpt(m.AlphaMode != "", cstr(m.AlphaMode)), cOptF64(m.AlphaCut), extrasClass(m.Extras))
 }
 
 func coqScene(d sceneDesc, b built) string {
